@@ -561,7 +561,7 @@ def run(ctx):
                        "connect_to_bus has no timeout (model result Blocked, theorem C17_auth_result)"]
     ctx.try_proof()
     exe = vlib.harness_build(["c17"])["c17"]
-    vlib.coq_make(["Conn/Auth.vo", "Conn/Addr.vo"])
+    vlib.coq_make(["Conn/Auth.vo", "Conn/Addr.vo", "Conn/AuthExamples.vo"])   # the examples must keep computing
     drv = vlib.ocaml_build("c17")
 
     work = os.path.join(vlib.SCRATCH, "c17_%d" % os.getpid())
